@@ -79,6 +79,8 @@ type Wide struct {
 	NBo   null.Bool         `plenc:"44"`
 	PIs   []*int            `plenc:"45"`
 	IIs   [][]int           `plenc:"46"`
+	PSl   *[]int            `plenc:"47"`
+	PSs   *[]string         `plenc:"48"`
 	Skip  int               `plenc:"-"`
 	priv  int
 }
